@@ -23,6 +23,7 @@ func main() {
 	r := hx.NewRng(run.Seed).Fork() // Fork: seeds n and n+1 would otherwise be the same stream shifted by one draw
 	meshgen.FixedCases(run)
 	meshgen.FixedGens(run)
+	meshgen.Tiles(run, r.Fork(), run.Tier == "thorough") // sizes past internal block limits: every local operation once
 	// one third generator cases, two thirds operation histories
 	ngen := run.N / 3
 	if run.Tier != "thorough" && ngen > 260 {
@@ -35,6 +36,8 @@ func main() {
 	for len(run.Cases) < run.N {
 		if r.Chance(1, 10) {
 			meshgen.Law(run, r)
+		} else if r.Chance(1, 20) {
+			meshgen.Persist(run, r, kinds) // retained results re-read after later operations on the same values
 		} else {
 			meshgen.Chain(run, r, kinds, 4)
 		}
